@@ -132,6 +132,7 @@ def run_check(pid, modnames, tier, seed, jobs, only=None, verbose=False):
     coverage = {}
     stats = {"queries": 0, "solver_time_s": {}, "results": {}}
     paths = decisions = validated = 0
+    xcheck = {}
     errors = []
     timeouts = []
     samples = []
@@ -158,6 +159,9 @@ def run_check(pid, modnames, tier, seed, jobs, only=None, verbose=False):
             stats["solver_time_s"][k] = round(stats["solver_time_s"].get(k, 0) + v, 3)
         for k, v in st.get("results", {}).items():
             stats["results"][k] = stats["results"].get(k, 0) + v
+        for k, v in r.get("xcheck", {}).items():
+            if k != "limit":
+                xcheck[k] = xcheck.get(k, 0) + v
         paths += r.get("paths", 0)
         decisions += r.get("decisions", 0)
         validated += r.get("validated", 0)
@@ -240,6 +244,9 @@ def run_check(pid, modnames, tier, seed, jobs, only=None, verbose=False):
             "cuts_and_stubs": meta["cuts"],
             "not_decided": meta["not_decided"],
             "solver": stats,
+            "second_solver_cross_check": {"solver": "cvc5 1.4 (python wheel) on the SMT-LIB2 dump incl. definitions", "sampled_unsat_obligations": xcheck.get("done", 0),
+                                          "cvc5_unsat": xcheck.get("unsat", 0), "cvc5_unknown_or_timeout": xcheck.get("unknown", 0) + xcheck.get("unavailable", 0),
+                                          "cvc5_sat_DISAGREEMENT": xcheck.get("sat", 0)},
             "branch_coverage": {k: sorted(v) for k, v in sorted(coverage.items())},
             "cases": len(jobs_list),
             "cases_completed": len(results),
